@@ -497,7 +497,7 @@ class SimSelector:
             ev = 0
             if k.events & 1 and k.fileobj.sim_readable():
                 ev |= 1
-            if k.events & 2 and not k.fileobj.closed:
+            if k.events & 2 and not k.fileobj.closed and not (getattr(k.fileobj, "wstall_until", None) is not None and self._s.now < k.fileobj.wstall_until - 1e-12):
                 ev |= 2
             if ev:
                 out.append((k, ev))
@@ -583,6 +583,7 @@ class SimSocket:
         self.index = len(net.sockets)
         self.closed_at = None
         self.write_fault = None
+        self.stall_after, self.stall_for, self.wstall_until = None, 0.0, None
         # descriptor numbers are handed out like the kernel does: the lowest number not in use (so they are reused)
         used = {x.fd for x in net.sockets if not x.closed}
         self.fd = next(n for n in range(1000, 1000 + len(net.sockets) + 2) if n not in used)
@@ -688,6 +689,20 @@ class SimSocket:
             raise BrokenPipeError(errno.EPIPE, "Broken pipe")
         data = bytes(data)
         k = len(data)
+        if self.stall_after is not None and data:
+            # the transport reports "would block" for `stall_for` seconds once `stall_after` more bytes have been taken
+            # (a transport with a full send buffer that does not block by itself: the library waits for writability)
+            if self.stall_after <= 0 and self.wstall_until is None:
+                self.wstall_until = s.now + self.stall_for
+                s.after(self.stall_for, lambda: None)  # wake whoever waits for writability
+            if self.wstall_until is not None:
+                if s.now < self.wstall_until - 1e-12:
+                    self.log.append((s.now, "WB"))
+                    raise BlockingIOError(errno.EAGAIN, "Resource temporarily unavailable")
+                self.stall_after, self.wstall_until = None, None
+            else:
+                k = min(k, self.stall_after)
+                self.stall_after -= k
         if self.write_fault is not None:
             # injected fault: accept `write_fault` more bytes, then the next send() times out (once)
             if self.write_fault <= 0:
